@@ -82,7 +82,8 @@ class Link:
         self.delivered = e
         self.last_arrival = self.k.now
         self.nchunks += 1
-        if not s.closed and not s.shut_rd:
+        if (not s.closed or s.readers) and not s.shut_rd:
+            # a recv() already blocked in another thread keeps the kernel object alive after close()
             s.rx += chunk
         self.k.ev("deliver", s.fd, len(chunk))
         self._pump()
@@ -234,6 +235,7 @@ class SimSocket:
         self.shut_rd = False
         self.shut_wr = False
         self.consumed = 0
+        self.readers = 0
         cfg = dict(net.sock_cfg)
         cfg.update(net.sock_cfgs.get(str(self.index), {}))
         self.read_caps = list(cfg.get("read_caps", ()))
@@ -364,13 +366,17 @@ class SimSocket:
             if not k.wait(self._sim_readable, 0, "recv"):
                 raise BlockingIOError(errno.EAGAIN, "Resource temporarily unavailable")
         else:
-            ok = k.wait(self._sim_readable, None if t is None else to_ticks(t), "recv")
+            self.readers += 1
+            try:
+                ok = k.wait(self._sim_readable, None if t is None else to_ticks(t), "recv")
+            finally:
+                self.readers -= 1
             if not ok:
                 self.net.count("recv_timeout")
                 k.ev("recv_timeout", self.fd)
                 raise _rs.timeout("timed out")
-        if self.closed:
-            raise OSError(errno.EBADF, "Bad file descriptor")
+            if self.closed:
+                self.net.count("recv_completed_after_close")
         if self.rx:
             n = min(bufsize, len(self.rx))
             if self.read_caps:
